@@ -347,6 +347,16 @@ def _done_stores(v: _Visit) -> List[ast.stmt]:
     return out
 
 
+def _completion_marks(v: _Visit) -> List[ast.stmt]:
+    """Stores that later calls read as "this result is finished": the `done` cache entry, and the back-reference a
+    generated module carries to its call (a module that has one is taken as already named — `handed on`)."""
+    out = list(_done_stores(v))
+    for st in au.stmts(v.fi.node):
+        if isinstance(st, ast.Assign) and len(st.targets) == 1 and isinstance(st.targets[0], ast.Attribute) and st.targets[0].attr == "_generated_by":
+            out.append(st)
+    return out
+
+
 def nothing_fails_after_done(repo: Repo, R, visits) -> None:
     """C08.2, second half: once the result is recorded as done nothing that can raise runs before the call returns
     (otherwise the failure handler leaves the record behind and the repeated call returns the half-finished result)."""
@@ -354,7 +364,7 @@ def nothing_fails_after_done(repo: Repo, R, visits) -> None:
     for v in visits:
         fi = v.fi
         cfg = CFG(fi.node, may_raise)
-        for st in _done_stores(v):
+        for st in _completion_marks(v):
             start = cfg.nodes_for(st)
             seen = set()
             work = [n.id for n in start]
@@ -372,7 +382,7 @@ def nothing_fails_after_done(repo: Repo, R, visits) -> None:
                     work.append(dst)
             risky = [n for n in risky if n.ast is not None]
             R.check(not risky, rule, key_of(fi, ast.unparse(st).split("\n")[0] + "::last-thing-that-can-fail"), fi.at(st),
-                    "nothing that can raise runs between the `done` store and the return" if not risky else
+                    f"nothing that can raise runs between `{ast.unparse(st)[:50]}` and the return" if not risky else
                     f"after `{ast.unparse(st)}` the call can still fail (line {risky[0].lineno}: `{ast.unparse(risky[0].ast).splitlines()[0][:70]}`): the record stays, the failure handler does not remove it",
                     why="a call that failed after its result was cached is answered from the cache next time: the half-finished module is returned where a fresh process raises")
 
